@@ -129,7 +129,12 @@ impl Ctx {
 
 pub struct Exhaustive {
     pub description: String,
+    /// false only if the enumeration was cut short (a violation stopped it)
     pub complete: bool,
+    /// members of the sub-space enumerated completely by this shard
+    pub included: u64,
+    /// candidates left out of the sub-space because their tree exceeded the cap (explored partially)
+    pub truncated: u64,
 }
 
 pub trait Property {
@@ -324,7 +329,7 @@ pub fn worker(prop: &dyn Property, tier: Tier, seed: u64, shard: (u64, u64), cas
         prop.exhaustive(tier, shard, &ctx_s, &mut sink)
     };
     if let Some(e) = &exh {
-        emit(&json!({"type": "exhaustive", "description": e.description, "complete": e.complete && exh_fail.is_none()}));
+        emit(&json!({"type": "exhaustive", "description": e.description, "complete": e.complete && exh_fail.is_none(), "included": e.included, "truncated": e.truncated}));
     }
     if let Some((v, input)) = exh_fail {
         emit(&json!({"type": "failure", "sig": v.sig, "msg": v.msg, "input": input.to_json(), "origin": "exhaustive"}));
@@ -598,6 +603,7 @@ pub fn parent(prop: &dyn Property, tier: Tier, seed: u64) -> i32 {
     let mut failures: Vec<Value> = vec![];
     let mut harness_errors: Vec<String> = vec![];
     let mut exh: Vec<(String, bool)> = vec![];
+    let (mut exh_included, mut exh_truncated) = (0u64, 0u64);
     let mut lines: Vec<String> = vec![];
     let mut saved_n = 0u64;
     let mut inconclusive = false;
@@ -682,7 +688,11 @@ pub fn parent(prop: &dyn Property, tier: Tier, seed: u64) -> i32 {
                 }
                 Some("failure") => failures.push(v),
                 Some("harness_error") => harness_errors.push(v["msg"].as_str().unwrap_or("").to_string()),
-                Some("exhaustive") => exh.push((v["description"].as_str().unwrap_or("").to_string(), v["complete"].as_bool().unwrap_or(false))),
+                Some("exhaustive") => {
+                    exh.push((v["description"].as_str().unwrap_or("").to_string(), v["complete"].as_bool().unwrap_or(false)));
+                    exh_included += v["included"].as_u64().unwrap_or(0);
+                    exh_truncated += v["truncated"].as_u64().unwrap_or(0);
+                }
                 Some("line") => lines.push(v["text"].as_str().unwrap_or("").to_string()),
                 Some("saved") => saved_n += v["n"].as_u64().unwrap_or(0),
                 _ => {}
@@ -747,7 +757,7 @@ pub fn parent(prop: &dyn Property, tier: Tier, seed: u64) -> i32 {
         "exhaustive": exhaustive_complete,
     });
     if let Some((d, _)) = exh.first() {
-        coverage["exhaustive_subspace"] = json!(d);
+        coverage["exhaustive_subspace"] = json!(format!("{d} [members enumerated completely: {exh_included}; candidates left out because their tree exceeded the cap (explored up to the cap only): {exh_truncated}]"));
     }
     // libFuzzer campaign run by `./check <ID> thorough` before this process (see /verif/check)
     if let Ok(p) = std::env::var("VLAB_FUZZ_STATS") {
